@@ -224,9 +224,12 @@ func checkFanout(w *World, prop string, pr *Proto, regOps []RegOp, dops []*dataO
 			}
 			// expected subscribers among this peer's features
 			seen := map[string]bool{}
-			for _, e := range p.Ents {
+			for _, e := range append(append([]*PEnt{}, p.Ents...), p.Gone...) {
 				for _, f := range e.Feats {
 					client := AddrStr(f.Address())
+					if seen[client] {
+						continue
+					}
 					st := subscribedState(regOps, "sub", RegKey{p.Name, client, server}, op.invoke, op.ret)
 					n := got[client]
 					seen[client] = true
@@ -313,6 +316,8 @@ type c08Data struct {
 	// a peer whose connection is removed while the others go on (its own requests are over by then)
 	victim *Peer
 	drop   *RegOp
+	// entities removed by their peers (windows filled in from the deliveries)
+	entdrops []RegOp
 }
 
 func init() {
@@ -324,7 +329,7 @@ func init() {
 			pr.L.QuiesceOwnTraffic = true
 			d := &c08Data{pr: pr, rs: &regScript{w: w, pr: pr, kind: "sub"}}
 			d.ev = w.CollectEvents()
-			w.EnableFaults("net.dup")
+			w.EnableFaults("net.dup", "peer.entity_remove")
 			hot := pr.Servers[w.T.Choose(len(pr.Servers), "hot")]
 			if len(pr.Peers) >= 3 && w.T.Bool(1, 2, "teardown-victim") {
 				d.victim = pr.Peers[len(pr.Peers)-1]
@@ -377,6 +382,27 @@ func init() {
 							p.Await(ri.ctr)
 						}
 					}
+					// when its requests are over the peer removes its second entity; the notification
+					// may name an entity the node never heard of first (a repeated removal, say)
+					if e := p.Entity([]uint{1, 1}); e != nil && p != d.victim && w.FaultsOn && w.FaultRate["peer.entity_remove"] > 0 && w.T.Bool(1, 2, "removes-second-entity") {
+						simrt.WaitUntil("own-requests-over", func() bool { return len(p.Conn.Queue) == 0 && !p.Conn.Handling })
+						w.Fault("peer.entity_remove")
+						removed := model.NetworkManagementStateChangeTypeRemoved
+						gone := []*PEnt{e}
+						if w.T.Bool(1, 2, "also-removes-an-unknown-entity") {
+							gone = []*PEnt{{Peer: p, Addr: []uint{7}, Type: model.EntityTypeTypeEV}, e}
+							w.Probe("entity-removal-names-unknown-entity-first")
+						}
+						cmd := model.CmdType{
+							Function:                            util.Ptr(model.FunctionTypeNodeManagementDetailedDiscoveryData),
+							Filter:                              []model.FilterType{*model.NewFilterTypePartial()},
+							NodeManagementDetailedDiscoveryData: p.DiscoveryData(gone, &removed, false),
+						}
+						ctr := p.SendCmd(p.NM().Address(), p.LocalNM(), model.CmdClassifierTypeNotify, nil, cmd, "entity-removed")
+						p.RemoveEntity([]uint{1, 1})
+						d.entdrops = append(d.entdrops, RegOp{Kind: "entdrop", Peer: p.Name, Client: p.Addr + "/[1,1]/", OK: true, Desc: fmt.Sprint(ctr)})
+						p.Await(ctr)
+					}
 				})
 			}
 			nd := 1 + w.T.Choose(2, "data-tasks")
@@ -400,6 +426,22 @@ func init() {
 			ops = append(ops, d.rs.collectListings("C08")...)
 			if d.drop != nil {
 				ops = append(ops, *d.drop)
+			}
+			entRemoved := 0
+			for _, x := range resolveEntdrops(d.pr.Peers, d.entdrops) {
+				ops = append(ops, x)
+			}
+			for _, x := range d.entdrops {
+				// (the peer's requests were over: what the entity's features still held goes with it)
+				for _, o := range ops {
+					if o.Peer == x.Peer && strings.HasPrefix(o.Client, x.Client) && o.OK {
+						if o.Kind == "sub" {
+							entRemoved++
+						} else if o.Kind == "unsub" {
+							entRemoved--
+						}
+					}
+				}
 			}
 			end := w.Stamp()
 			allIDs := map[uint64]int{}
@@ -451,6 +493,7 @@ func init() {
 					}
 				}
 			}
+			removed += entRemoved
 			if rems != removed {
 				w.Violate("C08/subscription-remove-events", "%d subscription-removed events for %d successful deletes (and entries of a removed connection)", rems, removed)
 			}
